@@ -78,9 +78,10 @@ T_C05 += [('Bashlex.C05.' + t, 'Bashlex.Props.C05Chars') for t in ['C05_chars_ch
 T_C05 += [('Bashlex.C05.' + t, 'Bashlex.Props.C05Final') for t in ['C05_chars_total', 'C05_final', 'C05_chain_checked', 'TGT.posLay_overapprox', 'run_gapsOK', 'coverOK_sound', 'act_ids', 'TGT.tokLogX', 'TGT.gap_layout', 'TGT.none_layout', 'TGT.tiled_of_covers']] + \
          [('Bashlex.C03.act_store', 'Bashlex.Props.C05Final'), ('Bashlex.LR.run_sound_ordB', 'Bashlex.Props.C05Final')]
 T_C05 += [('Bashlex.C05.' + t, 'Bashlex.Props.C05Cover') for t in ['C05_coverOK_plain', 'C05_coverOK_plain_nil', 'C05_run_gapsOK']]
+T_C05 += [('Bashlex.C05.' + t, 'Bashlex.Props.C05Cover2') for t in ['rootsAtLeaves_of_spine', 'C05_coverOK_spine_nil']]
 T_C05 += T_ROOT + [('Bashlex.Totals.C05_total', 'Bashlex.Props.Totals'), ('Bashlex.Totals.C05_total_single', 'Bashlex.Props.Totals'), ('Bashlex.Final.C05_final', 'Bashlex.Props.Final'), ('Bashlex.Final.C05_chars_total', 'Bashlex.Props.Final')]
 reg('C05', 'propchecks.treespec', 'proof', T_C05 + T1, [ASCII, DEPTH, CORR,
-    'Props/C05Cover.lean: the link to the EXECUTABLE spec - C05_coverOK_plain_nil: for results without here-document body leaves and without D19 (plainLeaves), under rootsAtLeaves (nextIndex = end of the last leaf) and SortOK (Array.qsort returned a sorted permutation), all three decidable on (s, parts), Spec.coverOK reports NOTHING (no overlap, no gap, no trailing text, across runs); evaluated: the conditions hold on all 779 + 1424 + 791 plain accepted inputs of the validation corpora. ' +
+    'Props/C05Cover.lean: the link to the EXECUTABLE spec - C05_coverOK_plain_nil: for results without here-document body leaves and without D19 (plainLeaves), under rootsAtLeaves (nextIndex = end of the last leaf) and SortOK (Array.qsort returned a sorted permutation), all three decidable on (s, parts), Spec.coverOK reports NOTHING (no overlap, no gap, no trailing text, across runs); evaluated: the conditions hold on all 779 + 1424 + 791 plain accepted inputs of the validation corpora; C05_coverOK_spine_nil (Props/C05Cover2.lean): rootsAtLeaves is a THEOREM for parts whose last spine runs through list / pipeline / command nodes (spineOK, decidable; 577 of 779 corpus results - the others end in a compound command, for which no development says where the node ends). ' +
     'Final.C05_final / Final.C05_chars_total / Totals.C05_total: with RootEnds proved no per-input condition is left (only the fuel bound of the model, |s|+1 < 2^30). ',
     'Props/C05Final.lean, Props/C05/F*.lean (4950 lines): the sub-task found C05_chars_checked WEAKER than it reads (posLay_overapprox, kernel-checked: PosLay is a property of the text alone, every character after any # on a line counts as layout - a token dropped behind a # inside a word would not be noticed) and repaired it: Skips are anchored at the end of the previous token (Chain), regions consumed by gatherheredocuments are newline / continuation / recorded body (GRegT, a re-walk of the tokenizer). '
     'C05_chars_total: the gathered-body disjunct is GONE - every gathered body is a leaf of the tree flagged as a body (act_ids: all 39 actions conserve the pending redirects of their arguments; act_store: only p_redirection_heredoc appends a store cell); D11 needs no exclusion (it is about which text is the body). '
